@@ -34,7 +34,7 @@ type c12Case struct {
 	Cred     string `json:"cred"`     // plain_proto | plain_random | tls_nocert | tls_selfsigned | tls_samename
 	TLSMax   int    `json:"tls_max"`  // 0 default | 12 | 13
 	SNI      string `json:"sni"`      // server name the intruder sends
-	Impostor string `json:"impostor"` // "" | tls_other_cert | plaintext : the plugin itself is an impostor
+	Impostor string `json:"impostor"` // "" | tls_other_cert | plaintext | nocert : the plugin itself is an impostor (nocert: a real, working plugin that ignores AutoMTLS, announces no certificate and serves without TLS)
 	Junk     []byte `json:"junk"`     // bytes for plain_random
 }
 
@@ -79,7 +79,7 @@ func c12Gen(t *rapid.T) any {
 	c.TLSMax = oneOf(t, "tlsmax", []int{0, 12, 13})
 	c.SNI = oneOf(t, "sni", []string{"localhost", "", "example.com", "plugin"})
 	if pct(t, "impostor", 15) {
-		c.Impostor = oneOf(t, "impostorkind", []string{"tls_other_cert", "plaintext"})
+		c.Impostor = oneOf(t, "impostorkind", []string{"tls_other_cert", "plaintext", "nocert", "nocert"})
 		if c.Proto == "grpcmux" {
 			c.Proto = "grpc"
 		}
@@ -92,10 +92,13 @@ func c12Gen(t *rapid.T) any {
 func c12Enum() (int, func(i int) any) {
 	type cell struct{ proto, path string }
 	cells := []cell{{"netrpc", "main"}, {"grpc", "main"}, {"grpc", "plugin_brokered"}, {"grpc", "host_brokered"}, {"grpcmux", "main"}}
-	n := len(cells)*len(c12Creds) + 4
+	n := len(cells)*len(c12Creds) + 7
 	return n, func(i int) any {
 		if i >= len(cells)*len(c12Creds) {
 			j := i - len(cells)*len(c12Creds)
+			if j >= 4 {
+				return &c12Case{Proto: []string{"netrpc", "grpc", "grpcmux"}[j-4], Path: "main", Cred: "tls_nocert", Impostor: "nocert", SNI: "localhost", Junk: []byte("x")}
+			}
 			return &c12Case{Proto: []string{"netrpc", "grpc"}[j%2], Path: "main", Cred: "tls_nocert", Impostor: []string{"tls_other_cert", "plaintext"}[j/2], SNI: "localhost", Junk: []byte("x")}
 		}
 		cl := cells[i/len(c12Creds)]
@@ -291,6 +294,9 @@ func c12Run(ci any) (out Outcome) {
 		}
 		marker := filepath.Join(caseDir, "handshakes")
 		cc.Cmd = fakeCmd(FakeSpec{Steps: []FakeStep{{Op: op, Path: marker}, {Op: "out", Data: []byte("1|1|tcp|{ADDR}|" + proto + "|{CERT}\n")}, {Op: "forever"}}})
+		if c.Impostor == "nocert" {
+			cc.Cmd = pluginCmd(PluginSpec{LegacyVersion: 1, Legacy: &set, GRPCServer: c.Proto != "netrpc", IgnoreClientCert: true})
+		}
 		cc.Cmd.Env = []string{"TMPDIR=" + caseDir}
 		cl := plugin.NewClient(cc)
 		defer killBounded(cl, 20*time.Second)
@@ -314,6 +320,10 @@ func c12Run(ci any) (out Outcome) {
 			return
 		}
 		if worked != "" {
+			if c.Impostor == "nocert" {
+				out.violate("AutoMTLS host, plugin that announces no certificate and serves without TLS: %s (the connection is not authenticated)", worked)
+				return
+			}
 			out.violate("the host talked to a plugin that announced one certificate and served %s: %s", c.Impostor, worked)
 			return
 		}
@@ -444,7 +454,7 @@ var propC12 = register(&Prop{
 	Run:  c12Run,
 	Enum: c12Enum,
 	Rule: "rapid draws a connection path (main listener; for gRPC also the plugin-side and host-side brokered listeners; net/rpc, gRPC, gRPC+mux), an intruder credential class (plaintext speaking the right protocol, plaintext random bytes, TLS without certificate, TLS with a fresh self-signed certificate, TLS with a certificate of identical subject/SAN but another key), TLS version bounds and SNI; " +
-		"or makes the plugin an impostor that announces one certificate and serves another / plaintext. The intruder learns addresses from the handshake and by watching the per-case socket directories. " +
+		"or makes the plugin an impostor that announces one certificate and serves another / plaintext, or a working plugin that ignores AutoMTLS (no certificate announced, no TLS). The intruder learns addresses from the handshake and by watching the per-case socket directories. " +
 		"Oracle: no intruder RPC is answered (health check, plugin service, brokered service, Control.Ping), the plugin's request counter and the host-side server's counter do not move, the legitimate pair still works on the attacked path; against an impostor no host call succeeds. The thorough tier also enumerates the 25-cell path x credential matrix and the impostors completely. Non-trivial: the intruder completed a connect to a live listener of the case.",
 	Assumptions: []string{"with gRPC+mux the plugin accepts a single connection on its socket, so brokered paths have no listener of their own; with net/rpc brokered connections are yamux streams inside the authenticated connection"},
 })
